@@ -448,7 +448,7 @@ def check(pid, cfg, tier, seed, tmp, args, t0):
                     gen_notes.append('generator %s seed %d exited %d: %s' % (job[0], job[1], rc, err[-500:]))
                     broken.append(('harness run %s seed %d (exit %d)' % (job[0], job[1], rc), err[-1500:]))
         # process-level drivers
-        if cfg.get('procs') and fzfbin:
+        if cfg.get('procs') and (fzfbin or not cfg.get('needs_fzf')):
             import procs
             for name in cfg['procs']:
                 rs, pnotes = procs.run(name, tier, seed, dict(fzf=fzfbin, driver=driver, tmp=tmp, harness=harness, pid=pid))
